@@ -33,6 +33,7 @@ type Loaded struct {
 	allFuncs  map[*ssa.Function]bool
 	byKey     map[string][]*ssa.Function // pkgpath::Recv.Name -> functions (instantiations)
 	srcCache  map[string][]byte
+	tables    []*tableEntry
 }
 
 func Load(repo string) (*Loaded, error) {
